@@ -135,12 +135,15 @@ def check_text(case, stats):
     if gh.names_existing_path(text):
         stats.label("excluded_known_F1")
         return
-    if case.get("prev") is not None and not gh.names_existing_path(case["prev"]):
-        # an earlier parse in the same process, aborted at its first error (possibly while look-ahead lines are queued),
-        # must not leak anything into this one
-        gh.parse(case["prev"], case.get("prev_default", "en"), stop=True)
     b = RecordingAstBuilder()
-    real = gh.parse(text, dflt, builder=b)
+    parser = gh.Parser(b)
+    if case.get("prev") is not None and not gh.names_existing_path(case["prev"]):
+        # earlier parses - in the same process and with the very same Parser - aborted at the first error (possibly while
+        # look-ahead lines are queued) and aborted by the error limit, must not leak anything into this one
+        gh.parse(case["prev"], case.get("prev_default", "en"), stop=True)
+        gh.parse(case["prev"], case.get("prev_default", "en"), parser=parser, stop=True)
+        gh.parse(case["prev"], case.get("prev_default", "en"), parser=parser, stop=False)
+    real = gh.parse(text, dflt, parser=parser, stop=False)
     n = len(split_lines(text))
     raw = split_lines(text)
     tagrun = any(raw[i].lstrip().startswith("@") and (raw[i + 1].strip() == "" or raw[i + 1].lstrip()[:1] in "#@") for i in range(len(raw) - 1))
@@ -157,7 +160,8 @@ def check_text(case, stats):
 def unit_noisy(a):
     stats = Stats()
     from hypothesis import strategies as st
-    strat = st.tuples(noisy.st_noisy(), noisy.st_noisy(900)).map(lambda x: {"sub": "text", "text": x[0][0], "default": x[0][1], "label": x[0][2], "prev": x[1][0], "prev_default": x[1][1]})
+    strat = st.tuples(noisy.st_noisy(), noisy.st_noisy(900), st.integers(0, 3)).map(
+        lambda x: {"sub": "text", "text": x[0][0], "default": x[0][1], "label": x[0][2], "prev": x[1][0] if x[2] else x[0][0], "prev_default": x[1][1] if x[2] else x[0][1]})
     hyp(stats, strat, check_text, a["n"], shard_seed(a["seed"], a["shard"], 18))
     return stats
 
@@ -198,6 +202,10 @@ def unit_prev_combos(a):
                 for nx in nexts:
                     yield {"sub": "text", "label": "after-aborted-parse", "prev": "\n".join(lines) + "\n", "text": nx}
     sweep(stats, gen(), check_text)
+    many = "Feature: f\n" + "".join(" bad %d\n" % i for i in range(14))
+    sweep(stats, [{"sub": "text", "label": "same-document-again", "prev": many, "text": many},
+                  {"sub": "text", "label": "same-document-again", "prev": many, "text": "Feature: f\n bad 3\n"},
+                  {"sub": "text", "label": "same-document-again", "prev": many + " @a b\n", "text": "Feature: f\n" + " ok\n" * 0 + " bad 0\n bad 1\n"}], check_text)
     prevs = ["Feature: f\n Scenario: s\n  Given x\n   \"\"\"\n   open\n", "Feature: f\n @t\n", "garbage\nFeature: f\n", "Feature: f\n" + "".join(" bad %d\n" % i for i in range(12)),
              "Feature: f\n Scenario: s\n  Given x\n   | a | b |\n   | c |\n @t\n\n Scenario: t\n", "Feature: ok\n"]
     sweep(stats, [{"sub": "formatter-reuse", "prev": pv, "text": nx, "stop": st_} for pv in prevs for nx in nexts for st_ in (False, True)], check_formatter_reuse)
